@@ -1,1259 +1,35 @@
-//! Engine C (DESIGN.md C09): string types differential against std `String`, UTF-8 validity
-//! after every step (also after panics), lossy / UTF-16 decoders, C-string constructors.
+//! Engine C (DESIGN.md C09, C16 strings, C07c): string operation sequences, differential against std
+//! `String`. The implementation (strings_impl.rs) is compiled three times: over trait-object allocators
+//! (any of the 140 cells) and over two concrete `BumpScope` types, so that the typed implementations of
+//! the concrete scopes (`shrink_slice`, `allocate_slice`, prepared allocations) carry string buffers too.
 
-use std::collections::BTreeSet;
-use std::ffi::CStr;
-use std::fmt::Write as _;
-use std::ops::Bound;
-use std::panic::{AssertUnwindSafe, catch_unwind};
+use bump_scope::traits::MutBumpAllocatorCoreScope;
 
-use bump_scope::traits::{BumpAllocatorTypedScope, MutBumpAllocatorCoreScope, MutBumpAllocatorTypedScope};
-use bump_scope::{BumpBox, BumpString, BumpVec, FixedBumpString, MutBumpString};
-
-use bsv_core::common::Info;
-use bsv_core::common::{Rec, pick};
-use bsv_cells::cells;
-use crate::coll_api::R2;
-use bsv_core::runner::{CaseReport, CaseResult, Engine, Failure, Marker, panic_message};
-use bsv_core::talloc::{self, FaultPlan, GrantPolicy, with_ctx};
+use bsv_core::common::{Info, Rec};
+use bsv_core::runner::{CaseResult, Engine};
 
 pub struct StrEngine {
     /// "C09" or "C16" (split_off-heavy mix reporting C16 oracle ids)
     pub split_mix: bool,
+    /// C07 stage: fault plans from the header
+    pub faulty: bool,
 }
-
-const ALPHABET: [char; 12] = ['a', 'z', 'é', 'ß', '€', '語', '😀', '\u{0301}', '\u{FFFD}', '\0', 'Q', '\u{10FFFF}'];
 
 pub(crate) fn text(r: &Rec, off: usize, n: usize) -> String {
-    (0..n).map(|i| ALPHABET[(r.b(off + i % 8) as usize + i * 5) % ALPHABET.len()]).collect()
+    dynm::imp::text(r, off, n)
 }
 
-#[derive(Clone, Debug)]
-enum SOp {
-    Push(char, bool),
-    PushStr(String, bool),
-    Insert(usize, char, bool),
-    InsertStr(usize, String, bool),
-    Remove(usize),
-    Pop,
-    Truncate(usize),
-    Clear,
-    Retain(u8, Option<usize>),
-    Drain(R2, usize, usize),
-    ReplaceRange(R2, String, bool),
-    ExtendFromWithin(R2, bool),
-    SplitOff(R2),
-    Reserve(usize),
-    ShrinkToFit,
-    WriteFmt(String, u32),
-}
-
-fn resolve(r: &R2, len: usize) -> Option<(usize, usize)> {
-    let s = match r.0 {
-        Bound::Unbounded => 0,
-        Bound::Included(i) => i,
-        Bound::Excluded(i) => i.checked_add(1)?,
-    };
-    let e = match r.1 {
-        Bound::Unbounded => len,
-        Bound::Included(i) => i.checked_add(1)?,
-        Bound::Excluded(i) => i,
-    };
-    if s > e || e > len { None } else { Some((s, e)) }
-}
-
-fn bound(sel: u8, raw: usize, len: usize) -> Bound<usize> {
-    let i = pick(raw, len + 3);
-    match sel % 4 {
-        0 => Bound::Unbounded,
-        1 | 2 => Bound::Included(i),
-        _ => Bound::Excluded(i),
-    }
-}
-
-enum MR {
-    Unit,
-    Ch(Option<char>),
-    Str(String),
-    Part(String),
-    Panic,
-}
-
-fn keep(kind: u8, c: char) -> bool {
-    match kind % 4 {
-        0 => c.len_utf8() != 2,
-        1 => c != 'a' && c != '€',
-        2 => c.is_ascii(),
-        _ => (c as u32) % 3 != 0,
-    }
-}
-
-/// the reference: std String under catch_unwind (panic = out of range / not a char boundary)
-fn model_apply(m: &mut String, op: &SOp) -> MR {
-    let mut copy = m.clone();
-    let r = catch_unwind(AssertUnwindSafe(|| -> MR {
-        match op {
-            SOp::Push(c, _) => {
-                copy.push(*c);
-                MR::Unit
-            }
-            SOp::PushStr(s, _) => {
-                copy.push_str(s);
-                MR::Unit
-            }
-            SOp::Insert(i, c, _) => {
-                copy.insert(*i, *c);
-                MR::Unit
-            }
-            SOp::InsertStr(i, s, _) => {
-                copy.insert_str(*i, s);
-                MR::Unit
-            }
-            SOp::Remove(i) => MR::Ch(Some(copy.remove(*i))),
-            SOp::Pop => MR::Ch(copy.pop()),
-            SOp::Truncate(n) => {
-                copy.truncate(*n);
-                MR::Unit
-            }
-            SOp::Clear => {
-                copy.clear();
-                MR::Unit
-            }
-            SOp::Retain(k, _) => {
-                copy.retain(|c| keep(*k, c));
-                MR::Unit
-            }
-            SOp::Drain(r, f, b) => {
-                let mut d = copy.drain(*r);
-                let mut out = String::new();
-                for _ in 0..*f {
-                    match d.next() {
-                        Some(c) => out.push(c),
-                        None => break,
-                    }
-                }
-                for _ in 0..*b {
-                    match d.next_back() {
-                        Some(c) => out.push(c),
-                        None => break,
-                    }
-                }
-                drop(d);
-                MR::Str(out)
-            }
-            SOp::ReplaceRange(r, s, _) => {
-                copy.replace_range(*r, s);
-                MR::Unit
-            }
-            SOp::ExtendFromWithin(r, _) => {
-                copy.extend_from_within(*r);
-                MR::Unit
-            }
-            SOp::SplitOff(r) => {
-                let (s, e) = match resolve(r, copy.len()) {
-                    Some(x) => x,
-                    None => panic!("range"),
-                };
-                let part: String = copy[s..e].to_string();
-                copy.replace_range(s..e, "");
-                MR::Part(part)
-            }
-            SOp::Reserve(_) | SOp::ShrinkToFit => MR::Unit,
-            SOp::WriteFmt(s, n) => {
-                write!(copy, "{s}{n}-{s:>3}").unwrap();
-                MR::Unit
-            }
-        }
-    }));
-    match r {
-        Ok(x) => {
-            *m = copy;
-            x
-        }
-        Err(_) => MR::Panic,
-    }
-}
-
-enum RR<S> {
-    Unit,
-    Ch(Option<char>),
-    Str(String),
-    Part(S),
-    AllocErr,
-    Unsupported,
-}
-
-thread_local! {
-    static RETAIN_PANIC: std::cell::Cell<Option<usize>> = const { std::cell::Cell::new(None) };
-}
-
-macro_rules! str_ops {
-    ($s:expr, $op:expr, growth: $g:tt, split: $sp:tt, shrink: $sh:tt) => {{
-        let s = $s;
-        match $op {
-            SOp::Remove(i) => RR::Ch(Some(s.remove(*i))),
-            SOp::Pop => RR::Ch(s.pop()),
-            SOp::Truncate(n) => {
-                s.truncate(*n);
-                RR::Unit
-            }
-            SOp::Clear => {
-                s.clear();
-                RR::Unit
-            }
-            SOp::Retain(k, at) => {
-                let mut calls = 0usize;
-                let at = *at;
-                s.retain(|c| {
-                    calls += 1;
-                    if Some(calls) == at {
-                        std::panic::resume_unwind(Box::new(Marker));
-                    }
-                    keep(*k, c)
-                });
-                RR::Unit
-            }
-            SOp::Drain(r, f, b) => {
-                let mut d = s.drain(*r);
-                let mut out = String::new();
-                for _ in 0..*f {
-                    match d.next() {
-                        Some(c) => out.push(c),
-                        None => break,
-                    }
-                }
-                for _ in 0..*b {
-                    match d.next_back() {
-                        Some(c) => out.push(c),
-                        None => break,
-                    }
-                }
-                drop(d);
-                RR::Str(out)
-            }
-            SOp::SplitOff(r) => sel2!($sp, RR::Part(s.split_off(*r)), RR::Unsupported),
-            SOp::Push(c, t) => sel2!(
-                $g,
-                if *t {
-                    match s.try_push(*c) {
-                        Ok(()) => RR::Unit,
-                        Err(_) => RR::AllocErr,
-                    }
-                } else {
-                    s.push(*c);
-                    RR::Unit
-                },
-                RR::Unsupported
-            ),
-            SOp::PushStr(x, t) => sel2!(
-                $g,
-                if *t {
-                    match s.try_push_str(x) {
-                        Ok(()) => RR::Unit,
-                        Err(_) => RR::AllocErr,
-                    }
-                } else {
-                    s.push_str(x);
-                    RR::Unit
-                },
-                RR::Unsupported
-            ),
-            SOp::Insert(i, c, t) => sel2!(
-                $g,
-                if *t {
-                    match s.try_insert(*i, *c) {
-                        Ok(()) => RR::Unit,
-                        Err(_) => RR::AllocErr,
-                    }
-                } else {
-                    s.insert(*i, *c);
-                    RR::Unit
-                },
-                RR::Unsupported
-            ),
-            SOp::InsertStr(i, x, t) => sel2!(
-                $g,
-                if *t {
-                    match s.try_insert_str(*i, x) {
-                        Ok(()) => RR::Unit,
-                        Err(_) => RR::AllocErr,
-                    }
-                } else {
-                    s.insert_str(*i, x);
-                    RR::Unit
-                },
-                RR::Unsupported
-            ),
-            SOp::ReplaceRange(r, x, t) => sel2!(
-                $g,
-                if *t {
-                    match s.try_replace_range(*r, x) {
-                        Ok(()) => RR::Unit,
-                        Err(_) => RR::AllocErr,
-                    }
-                } else {
-                    s.replace_range(*r, x);
-                    RR::Unit
-                },
-                RR::Unsupported
-            ),
-            SOp::ExtendFromWithin(r, t) => sel2!(
-                $g,
-                if *t {
-                    match s.try_extend_from_within(*r) {
-                        Ok(()) => RR::Unit,
-                        Err(_) => RR::AllocErr,
-                    }
-                } else {
-                    s.extend_from_within(*r);
-                    RR::Unit
-                },
-                RR::Unsupported
-            ),
-            SOp::Reserve(n) => sel2!(
-                $g,
-                match s.try_reserve(*n) {
-                    Ok(()) => RR::Unit,
-                    Err(_) => RR::AllocErr,
-                },
-                RR::Unsupported
-            ),
-            SOp::ShrinkToFit => sel2!(
-                $sh,
-                {
-                    s.shrink_to_fit();
-                    RR::Unit
-                },
-                RR::Unsupported
-            ),
-            SOp::WriteFmt(x, n) => sel2!(
-                $g,
-                match write!(s, "{x}{n}-{x:>3}") {
-                    Ok(()) => RR::Unit,
-                    Err(_) => RR::AllocErr,
-                },
-                RR::Unsupported
-            ),
-        }
-    }};
-}
-
-macro_rules! sel2 {
-    (yes, $a:expr, $b:expr) => {
-        $a
-    };
-    (no, $a:expr, $b:expr) => {
-        $b
-    };
-}
-
-type Sh<'b, 'a> = &'b (dyn MutBumpAllocatorCoreScope<'a> + 'a);
-
-enum SK<'b, 'a> {
-    Boxed(BumpBox<'a, str>),
-    Fixed(FixedBumpString<'a>),
-    Str(BumpString<Sh<'b, 'a>>),
-}
-
-impl<'b, 'a> SK<'b, 'a> {
-    fn name(&self) -> &'static str {
-        match self {
-            SK::Boxed(_) => "BumpBox<str>",
-            SK::Fixed(_) => "FixedBumpString",
-            SK::Str(_) => "BumpString",
-        }
-    }
-    fn as_str(&self) -> &str {
-        match self {
-            SK::Boxed(b) => b,
-            SK::Fixed(f) => f.as_str(),
-            SK::Str(s) => s.as_str(),
-        }
-    }
-    fn bytes(&self) -> &[u8] {
-        match self {
-            SK::Boxed(b) => b.as_bytes(),
-            SK::Fixed(f) => f.as_bytes(),
-            SK::Str(s) => s.as_bytes(),
-        }
-    }
-    fn capacity(&self) -> usize {
-        match self {
-            SK::Boxed(b) => b.len(),
-            SK::Fixed(f) => f.capacity(),
-            SK::Str(s) => s.capacity(),
-        }
-    }
-    fn apply(&mut self, op: &SOp) -> RR<SK<'b, 'a>> {
-        match self {
-            SK::Boxed(b) => match str_ops!(b, op, growth: no, split: yes, shrink: no) {
-                RR::Part(p) => RR::Part(SK::Boxed(p)),
-                RR::Unit => RR::Unit,
-                RR::Ch(c) => RR::Ch(c),
-                RR::Str(s) => RR::Str(s),
-                RR::AllocErr => RR::AllocErr,
-                RR::Unsupported => RR::Unsupported,
-            },
-            SK::Fixed(f) => match str_ops!(f, op, growth: yes, split: yes, shrink: no) {
-                RR::Part(p) => RR::Part(SK::Fixed(p)),
-                RR::Unit => RR::Unit,
-                RR::Ch(c) => RR::Ch(c),
-                RR::Str(s) => RR::Str(s),
-                RR::AllocErr => RR::AllocErr,
-                RR::Unsupported => RR::Unsupported,
-            },
-            SK::Str(s) => match str_ops!(s, op, growth: yes, split: yes, shrink: yes) {
-                RR::Part(p) => RR::Part(SK::Str(p)),
-                RR::Unit => RR::Unit,
-                RR::Ch(c) => RR::Ch(c),
-                RR::Str(s) => RR::Str(s),
-                RR::AllocErr => RR::AllocErr,
-                RR::Unsupported => RR::Unsupported,
-            },
-        }
-    }
-}
-
-struct St<'c> {
-    recs: Vec<&'c [u8]>,
-    pos: usize,
-    fails: Vec<Failure>,
-    classes: BTreeSet<&'static str>,
-    log: Option<String>,
-    hash: u64,
-    ops: u64,
-    nops: u64,
-    stop: bool,
-    split_mix: bool,
-}
-
-impl St<'_> {
-    fn fail(&mut self, oracle: &str, msg: String) {
-        if let Some(l) = self.log.as_mut() {
-            l.push_str(&format!("  !! {oracle}: {msg}\n"));
-        }
-        if !self.fails.iter().any(|f| f.oracle == oracle) {
-            self.fails.push(Failure { oracle: oracle.to_string(), msg });
-        }
-        self.stop = true;
-    }
-    fn note(&mut self, s: impl FnOnce() -> String) {
-        if self.log.is_some() && std::env::var_os("VERIF_TRACE").is_some() {
-            eprintln!("{}", s());
-            return;
-        }
-        if let Some(l) = self.log.as_mut() {
-            l.push_str(&s());
-            l.push('\n');
-        }
-    }
-    fn class(&mut self, c: &'static str) {
-        self.classes.insert(c);
-    }
-}
-
-fn decode(r: &Rec, len: usize, faulty: bool, split_mix: bool) -> SOp {
-    let try_ = faulty || r.b(1) & 1 == 1;
-    let idx = pick(r.u16(2), len + 2);
-    let n = r.b(5) as usize % 6;
-    let range = if r.b(1) & 2 == 0 {
-        let a = pick(r.u16(2), len + 1);
-        let b = pick(r.u16(4), len + 1);
-        (Bound::Included(a.min(b)), Bound::Excluded(a.max(b)))
-    } else {
-        (bound(r.b(6), r.u16(2), len), bound(r.b(7), r.u16(4), len))
-    };
-    let c = ALPHABET[r.b(4) as usize % ALPHABET.len()];
-    match r.b(0) % if split_mix { 26 } else { 20 } {
-        0..=2 => SOp::Push(c, try_),
-        3 | 4 => SOp::PushStr(text(r, 8, n), try_),
-        5 => SOp::Insert(idx, c, try_),
-        6 => SOp::InsertStr(idx, text(r, 8, n), try_),
-        7 | 8 => SOp::Remove(idx),
-        9 => SOp::Pop,
-        10 => SOp::Truncate(idx),
-        11 => {
-            if r.b(5) % 5 == 0 {
-                SOp::Clear
-            } else {
-                SOp::Reserve(r.b(5) as usize % 50)
-            }
-        }
-        12 => SOp::Retain(r.b(4), if r.b(5) % 3 == 0 { Some(1 + r.b(6) as usize % 6) } else { None }),
-        13 | 14 => SOp::Drain(range, r.b(8) as usize % 4, r.b(9) as usize % 3),
-        15 | 16 => SOp::ReplaceRange(range, text(r, 8, n), try_),
-        17 => SOp::ExtendFromWithin(range, try_),
-        18 => {
-            if r.b(5) & 1 == 0 {
-                SOp::ShrinkToFit
-            } else {
-                SOp::WriteFmt(text(r, 8, n % 3), r.u16(10) as u32)
-            }
-        }
-        _ => SOp::SplitOff(range),
-    }
-}
-
-fn utf8_ok(st: &mut St, bytes: &[u8], what: &str) {
-    if std::str::from_utf8(bytes).is_err() {
-        st.fail("C09/valid-utf8", format!("{what}: contents are not valid UTF-8: {bytes:x?}"));
-    }
-}
-
-/// one operation on (real, model)
-fn step<'b, 'a>(st: &mut St, s: &mut SK<'b, 'a>, m: &mut String, op: &SOp) -> Option<(SK<'b, 'a>, String)> {
-    let len0 = s.as_str().len();
-    let cap0 = s.capacity();
-    let what = format!("{} {:?} (cap {cap0}): {op:?}", s.name(), m);
-    st.note(|| what.clone());
-    let faults0 = with_ctx(0, |c| c.faults_fired);
-    let real = catch_unwind(AssertUnwindSafe(|| s.apply(op)));
-    let faults = with_ctx(0, |c| c.faults_fired) - faults0;
-    if matches!(real, Ok(RR::Unsupported)) {
-        st.nops += 1;
-        return None;
-    }
-    st.ops += 1;
-    st.hash ^= bsv_core::runner::fnv(format!("{op:?}").as_bytes());
-    st.hash = st.hash.wrapping_mul(0x100000001b3);
-    // classification: multi-byte char at an edge, non-boundary index
-    let nonboundary = |i: usize| i <= m.len() && !m.is_char_boundary(i);
-    match op {
-        SOp::Insert(i, ..) | SOp::InsertStr(i, ..) | SOp::Remove(i) | SOp::Truncate(i) => {
-            if nonboundary(*i) {
-                st.class("non_boundary_index");
-            }
-        }
-        SOp::Drain(r, ..) | SOp::ReplaceRange(r, ..) | SOp::ExtendFromWithin(r, _) | SOp::SplitOff(r) => {
-            if let Some((a, b)) = resolve(r, m.len()) {
-                if nonboundary(a) || nonboundary(b) {
-                    st.class("non_boundary_index");
-                } else if a < b && (m[a..b].chars().next().map(|c| c.len_utf8() > 1).unwrap_or(false) || m[a..b].chars().next_back().map(|c| c.len_utf8() > 1).unwrap_or(false)) {
-                    st.class("multibyte_at_edge");
-                }
-            }
-        }
-        _ => {}
-    }
-    let injected = matches!(op, SOp::Retain(_, Some(_)));
-    let mut m2 = m.clone();
-    let exp = model_apply(&mut m2, op);
-    let mut part = None;
-    let is_fixed = matches!(s, SK::Fixed(_));
-    // split_off belongs to C09 (string semantics, boundary panics) and to C16 (exact partition): the id follows the run
-    let split_mix = st.split_mix;
-    let split_id = |id: &str| -> String { if split_mix && matches!(op, SOp::SplitOff(_)) { id.replace("C09/", "C16/str-") } else { id.to_string() } };
-    match real {
-        Err(p) => {
-            if p.is::<Marker>() && injected {
-                st.class("retain_panicked");
-                // contents after the panic: valid UTF-8, resynchronise
-                utf8_ok(st, s.bytes(), &what);
-                *m = String::from_utf8_lossy(s.bytes()).into_owned();
-                return None;
-            }
-            let msg = panic_message(&p);
-            if matches!(exp, MR::Panic) {
-                st.class("expected_panic");
-                if s.as_str() != m.as_str() {
-                    st.fail(&split_id("C09/state-after-arg-panic"), format!("{what}: argument panic changed the contents to {:?}", s.as_str()));
-                }
-            } else if is_fixed && m2.len() > cap0 {
-                st.class("fixed_full");
-                *m = s.as_str().to_string();
-            } else {
-                st.fail(&split_id("C09/panic-verdict"), format!("{what}: panicked ({msg}) where std String does not"));
-            }
-        }
-        Ok(res) => match (res, exp) {
-            (RR::AllocErr, _) => {
-                if !(faults > 0 || (is_fixed && (m2.len() > cap0 || matches!(op, SOp::Reserve(n) if len0 + n > cap0))) || with_ctx(0, |c| c.exhausted)) {
-                    st.fail("C09/unexplained-error", format!("{what}: allocation error without cause"));
-                }
-                if faults > 0 {
-                    st.class("fault_fired");
-                }
-                if s.as_str() != m.as_str() {
-                    // a formatted write is a sequence of pushes: the pieces written before the failing one stay
-                    // (as with io::Write / fmt::Write on any sink); every other operation is all-or-nothing
-                    let partial_ok = matches!(op, SOp::WriteFmt(..)) && s.as_str().starts_with(m.as_str()) && m2.starts_with(s.as_str());
-                    if !partial_ok {
-                        st.fail("C07/collection-state-after-failure", format!("{what}: failed operation changed the contents to {:?}", s.as_str()));
-                    }
-                    *m = s.as_str().to_string();
-                }
-            }
-            (_, MR::Panic) => {
-                if injected {
-                    // the model does not panic for retain; unreachable
-                }
-                st.fail(&split_id("C09/panic-verdict"), format!("{what}: returned normally where std String panics (out of range / not a char boundary)"))
-            }
-            (RR::Unit, MR::Unit) => *m = m2,
-            (RR::Ch(a), MR::Ch(b)) => {
-                if a != b {
-                    st.fail("C09/returned-value", format!("{what}: returned {a:?}, std returns {b:?}"));
-                }
-                *m = m2;
-            }
-            (RR::Str(a), MR::Str(b)) => {
-                if a != b {
-                    st.fail("C09/returned-value", format!("{what}: yielded {a:?}, std yields {b:?}"));
-                }
-                *m = m2;
-            }
-            (RR::Part(p), MR::Part(b)) => {
-                if p.as_str() != b {
-                    st.fail("C16/str-partition", format!("{what}: split-off part {:?} != {b:?}", p.as_str()));
-                }
-                utf8_ok(st, p.bytes(), &what);
-                if matches!(s, SK::Fixed(_) | SK::Str(_)) && p.capacity() + s.capacity() != cap0 {
-                    st.fail("C16/str-capacity-sum", format!("{what}: capacities {} + {} != {cap0}", s.capacity(), p.capacity()));
-                }
-                *m = m2;
-                st.class("split_off");
-                part = Some((p, b));
-            }
-            _ => st.fail("C09/result-shape", format!("{what}: unexpected result shape")),
-        },
-    }
-    if st.stop {
-        return part;
-    }
-    utf8_ok(st, s.bytes(), &what);
-    if s.as_str() != m.as_str() {
-        st.fail(&split_id("C09/contents"), format!("{what}: contents {:?} != model {m:?}", s.as_str()));
-    }
-    if s.capacity() < s.as_str().len() {
-        st.fail("C09/len-le-capacity", format!("{what}: capacity {} < len {}", s.capacity(), s.as_str().len()));
-    }
-    part
-}
-
-fn bytes_input(r: &Rec) -> Vec<u8> {
-    let mut v: Vec<u8> = text(r, 8, r.b(5) as usize % 7).into_bytes();
-    match r.b(6) % 8 {
-        0 | 1 => {}
-        2 => {
-            v.pop();
-        }
-        3 => v.insert(pick(r.u16(2), v.len() + 1), 0x80),
-        4 => v.insert(pick(r.u16(2), v.len() + 1), 0xC0),
-        5 => v.extend_from_slice(&[0xED, 0xA0, 0x80]),
-        6 => v.insert(pick(r.u16(2), v.len() + 1), 0xF8),
-        _ => {
-            if !v.is_empty() {
-                let i = pick(r.u16(2), v.len());
-                v.truncate(i);
-                v.push(0xE2);
-            }
-        }
-    }
-    // a second malformation (adjacent invalid sequences, invalid bytes in the middle)
-    match r.b(7) % 8 {
-        0 => v.insert(pick(r.u16(12), v.len() + 1), 0xFF),
-        1 => {
-            let i = pick(r.u16(12), v.len() + 1);
-            v.insert(i, 0xFE);
-            v.insert(i, 0xFF);
-        }
-        2 => {
-            let i = pick(r.u16(12), v.len() + 1);
-            for (k, b) in [0xF0u8, 0x80, 0x80, 0x80].iter().enumerate() {
-                v.insert(i + k, *b);
-            }
-        }
-        3 => v.insert(0, 0xBF),
-        _ => {}
-    }
-    v
-}
-
-fn u16_input(r: &Rec) -> Vec<u16> {
-    let mut v: Vec<u16> = text(r, 8, r.b(5) as usize % 7).encode_utf16().collect();
-    match r.b(6) % 5 {
-        0 | 1 => {}
-        2 => v.insert(pick(r.u16(2), v.len() + 1), 0xD800),
-        3 => v.insert(pick(r.u16(2), v.len() + 1), 0xDC00),
-        _ => {
-            v.push(0xDC00);
-            v.push(0xD800);
-        }
-    }
-    v
-}
-
-fn cstr_expected(s: &str) -> Vec<u8> {
-    let b = s.as_bytes();
-    let n = b.iter().position(|c| *c == 0).unwrap_or(b.len());
-    let mut v = b[..n].to_vec();
-    v.push(0);
-    v
-}
-
-fn check_cstr(st: &mut St, c: &CStr, src: &str, what: &str) {
-    let exp = cstr_expected(src);
-    if c.to_bytes_with_nul() != exp.as_slice() {
-        st.fail("C09/cstr", format!("{what}: C string bytes {:x?} != expected {exp:x?} for {src:?}", c.to_bytes_with_nul()));
-    }
-}
-
-/// constructors / decoders: one-shot differential checks
-fn ctor_checks<'b, 'a>(st: &mut St, a: Sh<'b, 'a>, r: &Rec) {
-    let sel = r.b(4) % 13;
-    st.ops += 1;
-    match sel {
-        0 | 1 => {
-            let b = bytes_input(r);
-            let what = format!("from_utf8_lossy_in({b:x?})");
-            st.note(|| what.clone());
-            if std::str::from_utf8(&b).is_err() {
-                st.class("malformed_input");
-            }
-            if let Ok(s) = BumpString::try_from_utf8_lossy_in(&b, a) {
-                utf8_ok(st, s.as_bytes(), &what);
-                let exp = String::from_utf8_lossy(&b);
-                if s.as_str() != exp {
-                    st.fail("C09/lossy", format!("{what}: {:?} != std {exp:?}", s.as_str()));
-                }
-            }
-        }
-        2 => {
-            let b = bytes_input(r);
-            let what = format!("from_utf8({b:x?})");
-            st.note(|| what.clone());
-            let mut v: BumpVec<u8, Sh<'b, 'a>> = BumpVec::new_in(a);
-            if v.try_extend_from_slice_copy(&b).is_err() {
-                return;
-            }
-            let std_ok = std::str::from_utf8(&b).is_ok();
-            if !std_ok {
-                st.class("malformed_input");
-            }
-            if r.b(9) & 1 == 1 {
-                // the fixed-capacity twin
-                let mut fv = match bump_scope::FixedBumpVec::<u8>::try_with_capacity_in(b.len() + r.b(10) as usize % 4, a) {
-                    Ok(f) => f,
-                    Err(_) => return,
-                };
-                let _ = fv.try_extend_from_slice_copy(&b);
-                drop(v);
-                match FixedBumpString::from_utf8(fv) {
-                    Ok(s) => {
-                        if !std_ok || s.as_bytes() != b.as_slice() {
-                            st.fail("C09/from-utf8", format!("FixedBumpString::{what}: accepted invalid UTF-8 or changed the bytes"));
-                        }
-                    }
-                    Err(e) => {
-                        if std_ok {
-                            st.fail("C09/from-utf8", format!("FixedBumpString::{what}: rejected valid UTF-8"));
-                        }
-                        if e.into_bytes()[..] != b[..] {
-                            st.fail("C09/from-utf8", format!("FixedBumpString::{what}: the error does not give the bytes back"));
-                        }
-                    }
-                }
-                return;
-            }
-            match BumpString::from_utf8(v) {
-                Ok(s) => {
-                    if !std_ok {
-                        st.fail("C09/from-utf8", format!("{what}: accepted invalid UTF-8"));
-                    } else if s.as_bytes() != b.as_slice() {
-                        st.fail("C09/from-utf8", format!("{what}: contents changed"));
-                    }
-                }
-                Err(e) => {
-                    if std_ok {
-                        st.fail("C09/from-utf8", format!("{what}: rejected valid UTF-8"));
-                    }
-                    if e.into_bytes().as_slice() != b.as_slice() {
-                        st.fail("C09/from-utf8", format!("{what}: the error does not give the bytes back"));
-                    }
-                }
-            }
-        }
-        3 | 4 => {
-            let u = u16_input(r);
-            let what = format!("from_utf16(_lossy)_in({u:x?})");
-            st.note(|| what.clone());
-            let std_r = String::from_utf16(&u);
-            if std_r.is_err() {
-                st.class("malformed_input");
-            }
-            if let Ok(res) = BumpString::try_from_utf16_in(&u, a) {
-                match (res, &std_r) {
-                    (Ok(s), Ok(e)) => {
-                        if s.as_str() != e {
-                            st.fail("C09/utf16", format!("{what}: {:?} != std {e:?}", s.as_str()));
-                        }
-                    }
-                    (Err(_), Err(_)) => {}
-                    (Ok(s), Err(_)) => st.fail("C09/utf16", format!("{what}: accepted invalid UTF-16 as {:?}", s.as_str())),
-                    (Err(_), Ok(_)) => st.fail("C09/utf16", format!("{what}: rejected valid UTF-16")),
-                }
-            }
-            if let Ok(s) = BumpString::try_from_utf16_lossy_in(&u, a) {
-                utf8_ok(st, s.as_bytes(), &what);
-                let exp = String::from_utf16_lossy(&u);
-                if s.as_str() != exp {
-                    st.fail("C09/utf16", format!("{what}: lossy {:?} != std {exp:?}", s.as_str()));
-                }
-            }
-        }
-        5 => {
-            let t = text(r, 8, r.b(5) as usize % 8);
-            let what = format!("alloc_cstr_from_str({t:?})");
-            st.note(|| what.clone());
-            if t.contains('\0') {
-                st.class("embedded_nul");
-            }
-            if let Ok(c) = a.try_alloc_cstr_from_str(&t) {
-                check_cstr(st, c, &t, &what);
-            }
-        }
-        6 => {
-            let t = text(r, 8, r.b(5) as usize % 8);
-            let n = r.u16(10);
-            let what = format!("alloc_cstr_fmt({t:?}{n})");
-            st.note(|| what.clone());
-            if t.contains('\0') {
-                st.class("embedded_nul");
-            }
-            if let Ok(c) = a.try_alloc_cstr_fmt(format_args!("{t}{n}")) {
-                check_cstr(st, c, &format!("{t}{n}"), &what);
-            }
-        }
-        7 => {
-            let t = text(r, 8, r.b(5) as usize % 8);
-            let what = format!("BumpString::into_cstr({t:?})");
-            st.note(|| what.clone());
-            if t.contains('\0') {
-                st.class("embedded_nul");
-            }
-            if let Ok(s) = BumpString::try_from_str_in(&t, a) {
-                if let Ok(c) = s.try_into_cstr() {
-                    check_cstr(st, c, &t, &what);
-                }
-            }
-        }
-        8 => {
-            let t = text(r, 8, r.b(5) as usize % 8);
-            let n = r.u16(10);
-            let what = format!("alloc_fmt / alloc_str({t:?}{n})");
-            st.note(|| what.clone());
-            if let Ok(b) = a.try_alloc_fmt(format_args!("{t}{n:>4}|{t}")) {
-                let exp = format!("{t}{n:>4}|{t}");
-                if &*b != exp.as_str() {
-                    st.fail("C09/fmt", format!("{what}: {:?} != {exp:?}", &*b));
-                }
-            }
-            if let Ok(b) = a.try_alloc_str(&t) {
-                if &*b != t.as_str() {
-                    st.fail("C09/fmt", format!("{what}: alloc_str {:?} != {t:?}", &*b));
-                }
-            }
-            // format_args! without arguments takes the `as_str()` shortcut
-            match r.b(6) % 4 {
-                0 => {
-                    if let Ok(b) = a.try_alloc_fmt(format_args!("plain é literal")) {
-                        if &*b != "plain é literal" {
-                            st.fail("C09/fmt", format!("alloc_fmt of a literal gave {:?}", &*b));
-                        }
-                    }
-                }
-                1 => {
-                    if let Ok(c) = a.try_alloc_cstr_fmt(format_args!("ab\0cd")) {
-                        check_cstr(st, c, "ab\0cd", "alloc_cstr_fmt of a literal with a NUL");
-                    }
-                }
-                2 => {
-                    if let Ok(c) = a.try_alloc_cstr_fmt(format_args!("no nul")) {
-                        check_cstr(st, c, "no nul", "alloc_cstr_fmt of a literal");
-                    }
-                }
-                _ => {}
-            }
-        }
-        10 => {
-            // BumpBox<[u8]> -> BumpBox<str>
-            let b = bytes_input(r);
-            let what = format!("BumpBox::<str>::from_utf8({b:x?})");
-            st.note(|| what.clone());
-            let std_ok = std::str::from_utf8(&b).is_ok();
-            if !std_ok {
-                st.class("malformed_input");
-            }
-            let Ok(bx) = a.try_alloc_slice_copy(&b) else { return };
-            match BumpBox::<str>::from_utf8(bx) {
-                Ok(sx) => {
-                    if !std_ok || sx.as_bytes() != b.as_slice() {
-                        st.fail("C09/from-utf8", format!("{what}: accepted invalid UTF-8 or changed the bytes"));
-                    }
-                }
-                Err(e) => {
-                    if std_ok {
-                        st.fail("C09/from-utf8", format!("{what}: rejected valid UTF-8"));
-                    }
-                    if e.into_bytes()[..] != b[..] {
-                        st.fail("C09/from-utf8", format!("{what}: the error does not give the bytes back"));
-                    }
-                }
-            }
-        }
-        11 => {
-            // a full fixed string from an existing str: no room, contents kept
-            let t = text(r, 8, r.b(5) as usize % 8);
-            let what = format!("FixedBumpString::from_init({t:?})");
-            st.note(|| what.clone());
-            let Ok(bx) = a.try_alloc_str(&t) else { return };
-            let mut f = FixedBumpString::from_init(bx);
-            if f.as_str() != t || f.capacity() != t.len() {
-                st.fail("C09/contents", format!("{what}: {:?} cap {}", f.as_str(), f.capacity()));
-            }
-            if f.try_push('x').is_ok() {
-                st.fail("C09/fixed-never-grows", format!("{what}: a full fixed string accepted a push"));
-            }
-            if f.as_str() != t {
-                st.fail("C07/collection-state-after-failure", format!("{what}: failed push changed the contents to {:?}", f.as_str()));
-            }
-            if let Some(c) = t.chars().last() {
-                if f.pop() != Some(c) || f.try_push(c).is_err() || f.as_str() != t {
-                    st.fail("C09/contents", format!("{what}: pop + push of the last character gave {:?}", f.as_str()));
-                }
-            }
-        }
-        12 => {
-            // an empty fixed string over uninitialised bytes: takes exactly its capacity
-            let t = text(r, 8, 1 + r.b(5) as usize % 8);
-            let cap = t.len() + r.b(6) as usize % 3;
-            let what = format!("FixedBumpString::from_uninit({cap} bytes) then push_str({t:?})");
-            st.note(|| what.clone());
-            let Ok(u) = a.try_alloc_uninit_slice::<u8>(cap) else { return };
-            let mut f = FixedBumpString::from_uninit(u);
-            if !f.is_empty() || f.capacity() != cap {
-                st.fail("C09/contents", format!("{what}: new string has len {} cap {}", f.len(), f.capacity()));
-            }
-            if f.try_push_str(&t).is_err() || f.as_str() != t {
-                st.fail("C09/contents", format!("{what}: contents {:?}", f.as_str()));
-            }
-            let more = "é".repeat(2);
-            let fits = t.len() + more.len() <= cap;
-            if f.try_push_str(&more).is_ok() != fits {
-                st.fail("C09/fixed-never-grows", format!("{what}: pushing {} more bytes into capacity {cap}: fits = {fits}", more.len()));
-            }
-            utf8_ok(st, f.as_bytes(), &what);
-        }
-        _ => {
-            let t = text(r, 8, r.b(5) as usize % 8);
-            if let Some(nul) = t.find('\0') {
-                let _ = nul;
-            }
-            let c = std::ffi::CString::new(t.replace('\0', "")).unwrap();
-            let what = format!("alloc_cstr({c:?})");
-            st.note(|| what.clone());
-            if let Ok(r) = a.try_alloc_cstr(&c) {
-                if r.to_bytes_with_nul() != c.to_bytes_with_nul() {
-                    st.fail("C09/cstr", format!("{what}: copy differs"));
-                }
-            }
-        }
-    }
-}
-
-fn new_sk<'b, 'a>(a: Sh<'b, 'a>, kind: u8, init: &str, extra: usize) -> Option<SK<'b, 'a>> {
-    Some(match kind % 3 {
-        0 => SK::Boxed(a.try_alloc_str(init).ok()?),
-        1 => {
-            let mut f = FixedBumpString::try_with_capacity_in(init.len() + extra, a).ok()?;
-            f.push_str(init);
-            SK::Fixed(f)
-        }
-        _ => SK::Str(BumpString::try_from_str_in(init, a).ok()?),
-    })
-}
-
-fn run_shared<'b, 'a>(st: &mut St, a: Sh<'b, 'a>, first: u8, faulty: bool) {
-    let mut lives: Vec<(SK<'b, 'a>, String)> = Vec::new();
-    while st.pos < st.recs.len() && !st.stop {
-        let r = Rec(st.recs[st.pos]);
-        st.pos += 1;
-        if lives.is_empty() || (r.b(14) % 16 == 0 && lives.len() < 3) {
-            let init = text(&r, 8, r.b(5) as usize % 7);
-            if let Some(s) = new_sk(a, first.wrapping_add(r.b(6)), &init, r.b(7) as usize % 12) {
-                st.note(|| format!("new {} {init:?}", s.name()));
-                lives.push((s, init));
-            }
-            continue;
-        }
-        if r.b(14) % 16 == 1 {
-            ctor_checks(st, a, &r);
-            continue;
-        }
-        if r.b(14) % 16 == 2 {
-            // conversions
-            let i = pick(r.u16(12), lives.len());
-            let (s, m) = lives.remove(i);
-            st.ops += 1;
-            match s {
-                SK::Str(s) => {
-                    if r.b(5) & 1 == 0 {
-                        let b = s.into_boxed_str();
-                        if &*b != m.as_str() {
-                            st.fail("C09/conversion", format!("into_boxed_str changed {m:?} to {:?}", &*b));
-                        }
-                        lives.push((SK::Boxed(b), m));
-                    } else {
-                        let f = s.into_fixed_string();
-                        if f.as_str() != m.as_str() {
-                            st.fail("C09/conversion", format!("into_fixed_string changed {m:?} to {:?}", f.as_str()));
-                        }
-                        lives.push((SK::Fixed(f), m));
-                    }
-                }
-                SK::Fixed(f) => {
-                    let s = BumpString::from_parts(f, a);
-                    lives.push((SK::Str(s), m));
-                }
-                SK::Boxed(b) => drop(b),
-            }
-            continue;
-        }
-        let i = pick(r.u16(12), lives.len());
-        let len = lives[i].1.len();
-        let op = decode(&r, len, faulty, st.split_mix);
-        let (s, m) = &mut lives[i];
-        if let Some((p, pm)) = step(st, s, m, &op) {
-            lives.push((p, pm));
-        }
-        if st.stop {
-            break;
-        }
-        // independence of parts
-        for (k, (s, m)) in lives.iter().enumerate() {
-            if k != i && s.as_str() != m.as_str() {
-                st.fail("C16/str-sibling-changed", format!("after {op:?} on string {i}: string {k} changed {m:?} -> {:?}", s.as_str()));
-                break;
-            }
-        }
-    }
-}
-
-fn run_mut<'a>(st: &mut St, arena: &mut (dyn MutBumpAllocatorCoreScope<'a> + 'a), faulty: bool) {
-    let mut round = 0;
-    while st.pos < st.recs.len() && !st.stop && round < 4 {
-        round += 1;
-        let r0 = Rec(st.recs[st.pos]);
-        st.pos += 1;
-        let init = text(&r0, 8, r0.b(5) as usize % 6);
-        let n_ops = 1 + r0.b(6) as usize % 10;
-        let fin = r0.b(7) % 4;
-        st.note(|| format!("MutBumpString::from_str_in({init:?}) ops {n_ops} finalise {fin}"));
-        let a = &mut *arena;
-        // creation: from a str, or through MutBumpString's own decoders (separate code from BumpString's)
-        let (mut s, mut m) = match r0.b(9) % 6 {
-            0 | 1 => {
-                let b = bytes_input(&r0);
-                if std::str::from_utf8(&b).is_err() {
-                    st.class("malformed_input");
-                }
-                let what = format!("MutBumpString::from_utf8_lossy_in({b:x?})");
-                st.note(|| what.clone());
-                let Ok(s) = MutBumpString::try_from_utf8_lossy_in(&b, a) else { continue };
-                let exp = String::from_utf8_lossy(&b).into_owned();
-                utf8_ok(st, s.as_bytes(), &what);
-                if s.as_str() != exp {
-                    st.fail("C09/lossy", format!("{what}: {:?} != std {exp:?}", s.as_str()));
-                    return;
-                }
-                (s, exp)
-            }
-            2 => {
-                let u = u16_input(&r0);
-                let what = format!("MutBumpString::from_utf16_lossy_in({u:x?})");
-                st.note(|| what.clone());
-                if String::from_utf16(&u).is_err() {
-                    st.class("malformed_input");
-                }
-                let Ok(s) = MutBumpString::try_from_utf16_lossy_in(&u, a) else { continue };
-                let exp = String::from_utf16_lossy(&u);
-                utf8_ok(st, s.as_bytes(), &what);
-                if s.as_str() != exp {
-                    st.fail("C09/utf16", format!("{what}: lossy {:?} != std {exp:?}", s.as_str()));
-                    return;
-                }
-                (s, exp)
-            }
-            3 => {
-                let u = u16_input(&r0);
-                let what = format!("MutBumpString::from_utf16_in({u:x?})");
-                st.note(|| what.clone());
-                let std_r = String::from_utf16(&u);
-                if std_r.is_err() {
-                    st.class("malformed_input");
-                }
-                let Ok(res) = MutBumpString::try_from_utf16_in(&u, a) else { continue };
-                match (res, std_r) {
-                    (Ok(s), Ok(e)) => {
-                        if s.as_str() != e {
-                            st.fail("C09/utf16", format!("{what}: {:?} != std {e:?}", s.as_str()));
-                            return;
-                        }
-                        (s, e)
-                    }
-                    (Err(_), Err(_)) => continue,
-                    (Ok(s), Err(_)) => {
-                        st.fail("C09/utf16", format!("{what}: accepted invalid UTF-16 as {:?}", s.as_str()));
-                        return;
-                    }
-                    (Err(_), Ok(_)) => {
-                        st.fail("C09/utf16", format!("{what}: rejected valid UTF-16"));
-                        return;
-                    }
-                }
-            }
-            4 => {
-                let b = bytes_input(&r0);
-                let what = format!("MutBumpString::from_utf8(MutBumpVec {b:x?})");
-                st.note(|| what.clone());
-                let Ok(v) = bump_scope::MutBumpVec::try_from_owned_slice_in(b.clone(), a) else { continue };
-                let std_ok = std::str::from_utf8(&b).is_ok();
-                if !std_ok {
-                    st.class("malformed_input");
-                }
-                match MutBumpString::from_utf8(v) {
-                    Ok(s) => {
-                        if !std_ok || s.as_bytes() != b.as_slice() {
-                            st.fail("C09/from-utf8", format!("{what}: accepted invalid UTF-8 or changed the bytes"));
-                            return;
-                        }
-                        let m = s.as_str().to_string();
-                        (s, m)
-                    }
-                    Err(e) => {
-                        if std_ok {
-                            st.fail("C09/from-utf8", format!("{what}: rejected valid UTF-8"));
-                        }
-                        if e.into_bytes()[..] != b[..] {
-                            st.fail("C09/from-utf8", format!("{what}: the error does not give the bytes back"));
-                        }
-                        continue;
-                    }
-                }
-            }
-            _ => {
-                let Ok(s) = MutBumpString::try_from_str_in(&init, a) else { continue };
-                (s, init.clone())
-            }
-        };
-        for _ in 0..n_ops {
-            if st.pos >= st.recs.len() || st.stop {
-                break;
-            }
-            let r = Rec(st.recs[st.pos]);
-            st.pos += 1;
-            let op = decode(&r, m.len(), faulty, false);
-            let what = format!("MutBumpString {m:?}: {op:?}");
-            st.note(|| what.clone());
-            let mut m2 = m.clone();
-            let exp = model_apply(&mut m2, &op);
-            let real = catch_unwind(AssertUnwindSafe(|| -> RR<()> {
-                let sr = &mut s;
-                let rr: RR<()> = str_ops!(sr, &op, growth: yes, split: no, shrink: no);
-                rr
-            }));
-            st.ops += 1;
-            match (real, exp) {
-                (Ok(RR::Unsupported), _) => {
-                    st.nops += 1;
-                    continue;
-                }
-                (Err(p), e) => {
-                    if p.is::<Marker>() {
-                        st.class("retain_panicked");
-                        utf8_ok(st, s.as_bytes(), &what);
-                        m = String::from_utf8_lossy(s.as_bytes()).into_owned();
-                        continue;
-                    }
-                    if !matches!(e, MR::Panic) {
-                        st.fail("C09/panic-verdict", format!("{what}: panicked ({}) where std String does not", panic_message(&p)));
-                    } else {
-                        st.class("expected_panic");
-                    }
-                }
-                (Ok(RR::AllocErr), _) => {
-                    if s.as_str() != m.as_str() {
-                        let partial_ok = matches!(op, SOp::WriteFmt(..)) && s.as_str().starts_with(m.as_str()) && m2.starts_with(s.as_str());
-                        if !partial_ok {
-                            st.fail("C07/collection-state-after-failure", format!("{what}: failed operation changed the contents"));
-                        }
-                        m = s.as_str().to_string();
-                    }
-                }
-                (Ok(_), MR::Panic) => st.fail("C09/panic-verdict", format!("{what}: returned normally where std String panics")),
-                (Ok(RR::Ch(a)), MR::Ch(b)) => {
-                    if a != b {
-                        st.fail("C09/returned-value", format!("{what}: returned {a:?}, std {b:?}"));
-                    }
-                    m = m2;
-                }
-                (Ok(RR::Str(a)), MR::Str(b)) => {
-                    if a != b {
-                        st.fail("C09/returned-value", format!("{what}: yielded {a:?}, std {b:?}"));
-                    }
-                    m = m2;
-                }
-                (Ok(_), _) => m = m2,
-            }
-            utf8_ok(st, s.as_bytes(), &what);
-            if !st.stop && s.as_str() != m.as_str() {
-                st.fail("C09/contents", format!("{what}: contents {:?} != model {m:?}", s.as_str()));
-            }
-        }
-        if st.stop {
-            break;
-        }
-        match fin {
-            0 => drop(s),
-            1 => {
-                let b = s.into_boxed_str();
-                if &*b != m.as_str() {
-                    st.fail("C09/conversion", format!("MutBumpString::into_boxed_str: {:?} != {m:?}", &*b));
-                }
-            }
-            2 => {
-                if m.contains('\0') {
-                    st.class("embedded_nul");
-                }
-                if let Ok(c) = s.try_into_cstr() {
-                    check_cstr(st, c, &m, "MutBumpString::into_cstr");
-                }
-            }
-            _ => {
-                let x = s.into_str();
-                if x != m.as_str() {
-                    st.fail("C09/conversion", format!("MutBumpString::into_str: {x:?} != {m:?}"));
-                }
-            }
-        }
-        // helper: alloc_fmt_mut / alloc_cstr_fmt_mut
-        let t = text(&r0, 9, r0.b(9) as usize % 6);
-        if let Ok(b) = arena.try_alloc_fmt_mut(format_args!("{t}|{}", r0.u16(10))) {
-            let exp = format!("{t}|{}", r0.u16(10));
-            if &*b != exp.as_str() {
-                st.fail("C09/fmt", format!("alloc_fmt_mut: {:?} != {exp:?}", &*b));
-            }
-        }
-        if let Ok(c) = arena.try_alloc_cstr_fmt_mut(format_args!("{t}|{}", r0.u16(10))) {
-            check_cstr(st, c, &format!("{t}|{}", r0.u16(10)), "alloc_cstr_fmt_mut");
-        }
-    }
-}
+use crate::{strings_down8 as down8, strings_dyn as dynm, strings_up4 as up4};
 
 impl Engine for StrEngine {
     fn owns(&self, prop: &str, oracle: &str) -> bool {
         // a wrong split_off is wrong string behaviour (C09) as well as an inexact partition (C16)
-        oracle.starts_with(prop) || oracle.starts_with("panic") || oracle.starts_with("crash") || (prop == "C09" && oracle.starts_with("C16/str-"))
+        oracle.starts_with(prop)
+            || oracle.starts_with("panic")
+            || oracle.starts_with("crash")
+            || (prop == "C09" && oracle.starts_with("C16/str-"))
+            // a string whose bytes change through an operation on another string: C02
+            || (prop == "C02" && oracle == "C16/str-sibling-changed")
     }
     fn name(&self) -> &'static str {
         "C/strings"
@@ -1271,61 +47,19 @@ impl Engine for StrEngine {
         vec!["std::string::String / String::from_utf8_lossy / from_utf16(_lossy) / format! are the reference".into()]
     }
     fn run_case(&self, bytes: &[u8], want_desc: bool) -> CaseResult {
-        let (hb, rest) = bytes.split_at(bytes.len().min(16));
-        let b = |i: usize| hb.get(i).copied().unwrap_or(0);
-        let recs: Vec<&[u8]> = rest.chunks(16).collect();
-        let cs = cells();
-        let cell = &cs[b(0) as usize % cs.len()];
-        let ma = 1usize << (b(1) % 5);
-        talloc::with_ctx(0, |c| c.reset(if b(8) % 3 == 0 { GrantPolicy::Plus(1 + b(9) as usize % 40) } else { GrantPolicy::Exact }, u64::from_le_bytes([b(8), b(9), b(10), b(11), b(12), b(13), b(14), b(15)]), FaultPlan::default()));
-        let mut st = St {
-            recs,
-            pos: 0,
-            fails: vec![],
-            classes: BTreeSet::new(),
-            log: if want_desc { Some(String::new()) } else { None },
-            hash: 0xcbf29ce484222325,
-            ops: 0,
-            nops: 0,
-            stop: false,
-            split_mix: self.split_mix,
+        // header byte 7 selects the allocator kind: trait object (any cell) or one of two concrete scope types
+        let mut r = match bytes.get(7).copied().unwrap_or(0) % 4 {
+            0 => down8::imp::run_case_impl(self.split_mix, self.faulty, bytes, want_desc),
+            1 => up4::imp::run_case_impl(self.split_mix, self.faulty, bytes, want_desc),
+            _ => dynm::imp::run_case_impl(self.split_mix, self.faulty, bytes, want_desc),
         };
-        let mutmode = !self.split_mix && b(2) % 4 == 0;
-        st.note(|| format!("cell [{}] min_align {ma} mode {}", cell.name, if mutmode { "MutBumpString" } else { "shared" }));
-        let first = b(3);
-        let r = catch_unwind(AssertUnwindSafe(|| {
-            (cell.d)(ma, b(4), &mut |arena, _info: Info| {
-                if mutmode {
-                    run_mut(&mut st, arena, false);
-                } else {
-                    run_shared(&mut st, &*arena, first, false);
-                }
-            })
-        }));
-        if let Err(p) = r {
-            st.fail("panic/engine", format!("unexpected panic: {}", panic_message(&p)));
+        match bytes.get(7).copied().unwrap_or(0) % 4 {
+            0 | 1 => r.report.classes.push("concrete_scope"),
+            _ => {}
         }
-        let errs = with_ctx(0, |c| std::mem::take(&mut c.errors));
-        for e in errs {
-            let id = e.split(':').next().unwrap_or("C05/ledger").to_string();
-            st.fail(&id, e.clone());
-        }
-        let nontrivial = st.classes.contains("non_boundary_index") || st.classes.contains("multibyte_at_edge") || st.classes.contains("malformed_input");
-        CaseResult {
-            report: CaseReport {
-                nontrivial,
-                hash: st.hash,
-                classes: st.classes.iter().copied().collect(),
-                ops: st.ops,
-                nops: st.nops,
-                desc: st.log.take(),
-                counters: vec![("operations", st.ops)],
-            },
-            failures: st.fails,
-        }
+        r
     }
 }
 
-// silence unused import warnings for traits used only through method calls
 #[allow(unused)]
-fn _traits<'a, A: BumpAllocatorTypedScope<'a>, B: MutBumpAllocatorTypedScope<'a>>() {}
+fn _u<'a>(_: &dyn MutBumpAllocatorCoreScope<'a>) {}
